@@ -17,11 +17,13 @@ def _cp(s):
     return [ord(c) for c in s]
 
 
-def render(src):
+def render(src, same=False):
+    """same=True: every plain character is the same digit (equal span texts in different neighbourhoods); the inserted
+    material is still foreign to the plain text, so the minimal diff stays unique"""
     out, plain, d = [], [], 0
     for t in src:
         if t["c"] == "t":
-            s = "".join(str((d + i) % 10) for i in range(t["n"]))
+            s = "7" * t["n"] if same else "".join(str((d + i) % 10) for i in range(t["n"]))
             d += t["n"]
             out.append(s)
             plain.append(s)
@@ -100,7 +102,7 @@ def annotate_one(plain, target, has_src, mode, anns, use_dmp):
 def run_cfg(payload):
     res = []
     for c in payload["items"]:
-        target, plain = render(c["src"])
+        target, plain = render(c["src"], c.get("same", False))
         if not c["hasSrc"]:
             plain = target
         o = annotate_one(plain, target, c["hasSrc"], c["mode"], c["anns"], c.get("dmp", True))
